@@ -316,6 +316,19 @@ fn build_public_batch_constraints(
     builder.register_public_inputs(&output_pis);
 }
 
+/// Verification hook (add-only, guarded): exposes the unchanged public
+/// wrapper-constraint builder so it can be instantiated over free child
+/// public-input targets without the recursive verifiers.
+#[cfg(quantus_network_qp_zk_circuits_verif)]
+pub fn verif_build_public_batch_constraints(
+    builder: &mut CircuitBuilder<F, D>,
+    targets: &PublicBatchCircuitTargets,
+    n_private_batch: usize,
+    n_leaf: usize,
+) {
+    build_public_batch_constraints(builder, targets, n_private_batch, n_leaf)
+}
+
 #[cfg(test)]
 mod tests {
     use super::*;
